@@ -16,6 +16,7 @@ import (
 	"net"
 	"net/netip"
 	"sort"
+	"syscall"
 	"time"
 
 	"github.com/uhppoted/uhppote-core/types"
@@ -58,19 +59,19 @@ type step struct {
 // the alphabet of history steps
 var alphabet = func() []step {
 	a := []step{}
-	for _, b := range []string{"success", "silence", "late", "just-in-time", "unreachable", "stray-first"} {
+	for _, b := range []string{"success", "silence", "late", "just-in-time", "unreachable", "stray-first", "send-fails"} {
 		a = append(a, step{"udp", b, "GetCards"})
 	}
-	for _, b := range []string{"success", "silence", "late", "just-in-time", "flood-then-valid", "flood-only"} {
+	for _, b := range []string{"success", "silence", "late", "just-in-time", "flood-then-valid", "flood-only", "send-fails"} {
 		a = append(a, step{"broadcast", b, "GetCards"})
 	}
-	for _, b := range []string{"success", "stall", "refused", "reset", "eof", "blackhole", "late", "just-in-time"} {
+	for _, b := range []string{"success", "stall", "refused", "reset", "eof", "blackhole", "late", "just-in-time", "send-fails"} {
 		a = append(a, step{"tcp", b, "GetCards"})
 	}
 	for _, p := range []string{"udp", "tcp", "broadcast"} {
 		a = append(a, step{p, "no-reply-expected", "SetAddress"})
 	}
-	a = append(a, step{"broadcast", "replies-in-window", "GetDevices"}, step{"broadcast", "silence", "GetDevices"}, step{"broadcast", "reply-at-deadline", "GetDevices"})
+	a = append(a, step{"broadcast", "replies-in-window", "GetDevices"}, step{"broadcast", "silence", "GetDevices"}, step{"broadcast", "reply-at-deadline", "GetDevices"}, step{"broadcast", "send-fails", "GetDevices"})
 	return a
 }()
 
@@ -81,6 +82,9 @@ func expect(s step) (time.Duration, bool) {
 			return 0, true
 		}
 		return 0, true
+	}
+	if s.behaviour == "send-fails" {
+		return 0, false // the local stack refuses the request: the call fails at once
 	}
 	if s.op == "GetDevices" {
 		return T, true
@@ -169,6 +173,10 @@ func newWorld() *world {
 
 func (w *world) set(s step) {
 	w.cur = s
+	vs.Net().SendFails = nil
+	if s.behaviour == "send-fails" {
+		vs.Net().SendFails = func(vs.Packet) error { return syscall.ENETUNREACH }
+	}
 	w.ctrls["tcp"].TCP = "accept"
 	if s.path == "tcp" {
 		switch s.behaviour {
